@@ -295,6 +295,13 @@ func GenJsonFamily(w *Writer, r *Rng, t Tier) error {
 			meta["expect"] = expect
 		}
 		w.Line("json "+toks+" "+terminal+" "+valsSexp, impl, meta)
+		// the same BYTES read by the model's own JSON reader (Xsel/JsonText.lean): its token list must
+		// be encoding/json's, and it must reject exactly the texts ReadJson rejects
+		timpl := "toks=" + toks
+		if _, rerr := readJsonGuard(text); rerr != nil || terminal != "eof" {
+			timpl = "err"
+		}
+		w.Line("jsontext "+EncStr(text), timpl, map[string]interface{}{"k": "jtext", "fam": fam + "-text", "text": text, "n": len(evs) + 1})
 	}
 	return nil
 }
